@@ -13,7 +13,9 @@ META = {
             "for every session and every definition of a name that does not occur in it, the results of the session are "
             "unchanged, and results are a function of the session alone; (T01.4) in the compiler model the code of an "
             "application is the operand codes in order, each followed by PUSH, then the argument count, then the operator "
-            "code, then CALL/TCALL; (T01.2, derived forms vs prelude macros, is not proved — see note). The agreement of the real "
+            "code, then CALL/TCALL; fuel monotonicity of Spec.Eval; (T01.2) for the macros of the regenerated prelude and ALL uses, "
+            "the R7RS matcher's expansion is the expected term and evaluating it agrees with the native meaning up to fuel "
+            "(closed / partial / open per form: see note). The agreement of the real "
             "parse+expand+compile+run pipeline with Spec.Eval is carried by differential testing: typed generated sessions of "
             "1-12 top-level forms run form by form in a fresh Vm and through the specification (value as datum, error "
             "class, output log), plus two implementation-vs-implementation oracles (same session in a second fresh Vm; same "
@@ -27,14 +29,45 @@ META = {
             "(Lemmas/EvalFrame*.lean). 'Results are a function of the session alone' holds by construction of the specification "
             "(stated, trivial). T01.4 operand order, about the compiler model Vm/Compile.lean: application code = operand codes "
             "left to right each followed by PUSH, then argc, operator code, CALL/TCALL. Spec answers at the witnesses of the three "
-            "known findings are proved by kernel evaluation. T01.2 is HALF done: translate/prelude.py regenerates Gen/Prelude.lean "
-            "from prelude.scm on every run and Lemmas/EvalPrelude.lean proves (kernel evaluation) that the R7RS matcher of C17 "
-            "expands schematic uses of when, unless, begin, and, or, let and case-with-a-final-=> clause with the CURRENT prelude "
-            "rules to the expected core forms (so a change of a rule's shape or order breaks a proof); NOT proved: that "
-            "evaluating those expansions equals evaluating the form natively in Spec.Eval — it needs fuel monotonicity of "
-            "Spec.Eval (an expansion nests deeper than the native form, so the equality is only up to fuel); cond, let*, letrec, "
-            "named let, delay are not covered even by the first half; T01.3 (compiler correctness: compile+run of Vm/Compile.lean + Vm/Machine.lean "
-            "agrees with Spec.Eval) is not stated. The agreement of the REAL parse+expand+compile+run pipeline with Spec.Eval — "
+            "known findings are proved by kernel evaluation. FUEL MONOTONICITY of Spec.Eval is closed (Lemmas/EvalMono*.lean: "
+            "fuel_monotone, fuel_monotone_apply, session_fuel_monotone): a definite outcome (value or error; same globals, store, "
+            "output) reached with fuel n is reached with every m >= n, by induction on fuel through every special form, primitive, "
+            "apply/eval/force/map/for-each. T01.2: translate/prelude.py regenerates Gen/Prelude.lean from prelude.scm on every run. "
+            "FIRST HALF closed for ALL uses (Lemmas/EvalDerivedExpand.lean, arbitrary sub-forms and numbers of clauses/bindings/body "
+            "forms, not instances): the R7RS matcher of C17 with the current rules rewrites when, unless, begin, and, or, let, named "
+            "let, let*, letrec, cond (7 rules), case (7 rules), delay, delay-force to the terms of Lemmas/EvalDerivedShapes.lean "
+            "(12 closed kernel-evaluated facts pin the regenerated rules, so a change of prelude.scm breaks a proof). SECOND HALF "
+            "(evaluating the expansion in Spec.Eval = evaluating the form under its native meaning: same value/error class, globals, "
+            "store, output, each within k more levels of fuel; t01_2_* combine both halves): CLOSED for when; unless (hypothesis: "
+            "`not` not shadowed and globally the primitive — the expansion names it); begin (hypothesis: no definition among the "
+            "forms; with one the two differ, begin_define_differs, cf. known finding top-level begin); and (all arities); or with 0/1 "
+            "operands; let; let*; named let (against the native letrec); cond else-clause and clauses with a body (rules 1,6,7); case "
+            "(else => f). PARTIAL: letrec — expansion = native meaning with #f instead of #<undefined> in not-yet-initialised "
+            "variables (derived_letrec_partial; R7RS leaves that unspecified; observable difference proved at a witness), and exact "
+            "(closed) for one binding whose init is a lambda expression (t01_2_letrec_single: the shape named let expands to); or with >= 2 "
+            "operands, cond (t => f) and (t) clauses followed by more — these rules bind var1/temp: what the expansion computes is "
+            "characterised next to the native meaning (same computation plus one allocated variable cell and the extra binding: "
+            "derived_or_partial, derived_cond_test_partial, derived_cond_arrow_partial), equality up to that cell is proved when the "
+            "first test is true (derived_or_first_true), the capture (known finding) is proved at witnesses for var1, temp, atom-key "
+            "(*_capture_expansion_witness); the general equivalence under 'identifier not free' is NOT proved: it needs invariance of "
+            "Spec.Eval under an unused binding plus an unreachable store cell, which is false as Spec.Eval stands for programs that "
+            "externalise cyclic data (depth bound = store size); cond (t) final: native #<void> vs expansion #f when t is false "
+            "(derived_cond_test_final, cond_test_final_differs; R7RS unspecified; the REAL VM answers #f, i.e. Spec.Eval's 'void' is "
+            "not the implementation's choice here — not exercised by the generator); case (else r ...): native evaluates the key, "
+            "expansion does not (derived_case_else_partial). OPEN (first half only): case clauses with a datum list (the expansion's "
+            "(memv k '(...)) allocates the quoted list, the native meaning does not), case with a compound key (atom-key), delay / "
+            "delay-force (the prelude represents promises as lists and force as a library procedure; Spec.Eval has native promise "
+            "cells: a change of representation). T01.3 (compiler correctness: compile+run of Vm/Compile.lean + Vm/Machine.lean "
+            "agrees with Spec.Eval): STAGE 1 ONLY and PARTIAL (compile_correct_stage1_partial, Lemmas/CompileCorrect*.lean): for the "
+            "closure-free fragment (constants, quote of atoms, global reference, set! of a global, if, application with a "
+            "non-keyword head; (define x e) separately) and the SUCCESS case of Spec.Eval only, running the compiler model's code on "
+            "Vm.step over an abstract heap leaves the live stack, bp, ep unchanged, advances ip by the code length, leaves a "
+            "representation of the value in acc and a heap representing the new state — under the explicit assumption structure "
+            "RepLaws (global slots form a store; writing a global preserves code/representations; truth of #f; void; and `call`: a "
+            "represented callee on which the specification's apply returns is a generic builtin whose result represents the same "
+            "value — i.e. the behaviour of builtins is assumed, not proved); the laws are shown satisfiable on the concrete heap "
+            "model and every hypothesis is discharged for (not #t). Open: error case, quote of pairs/vectors, closures/lambda/"
+            "lexical variables/frames (stage 2), quasiquote (stage 3), GC interleaving. The agreement of the REAL parse+expand+compile+run pipeline with Spec.Eval — "
             "i.e. the first sentence of the property — is carried ONLY by the differential correspondence (generated sessions, "
             "see coverage.streams: feature histogram, named combinations, failure classes), and the fresh-VM / independence "
             "clause on the implementation side by the two implementation-vs-implementation oracles; the theorems are about the "
@@ -45,7 +78,8 @@ META = {
             "variable c92a4af, found by the generator), three known findings (dotted unquote `(a . ,e); top-level begin with "
             "definitions; prelude macros capturing var1 / temp / atom-key).",
     "technique": "Lean 4 definitional interpreter as specification + proved frame/independence theorem, compiler-model operand "
-                 "order, derived-form expansion lemmas; generated differential testing of Vm::eval against the specification "
+                 "order, fuel monotonicity, derived-form expansion theorems (matcher, all uses) and expansion-vs-native evaluation "
+                 "theorems; generated differential testing of Vm::eval against the specification "
                  "with fresh-VM and independence oracles",
 }
 MODULE = "Marwood.Proofs.C01"
@@ -60,6 +94,57 @@ THEOREMS = [
     "Marwood.Proofs.C01.dotted_unquote_spec_witness",
     "Marwood.Proofs.C01.toplevel_begin_spec_witness",
     "Marwood.Proofs.C01.or_capture_spec_witness",
+    "Marwood.Proofs.C01.fuel_monotone",
+    "Marwood.Proofs.C01.outcome_unique",
+    "Marwood.Proofs.C01.fuel_monotone_apply",
+    "Marwood.Proofs.C01.session_fuel_monotone",
+    "Marwood.Spec.Eval.recLe_evalN",
+    "Marwood.Proofs.C01.derived_limit",
+    "Marwood.Proofs.C01.t01_2_when",
+    "Marwood.Proofs.C01.t01_2_unless",
+    "Marwood.Proofs.C01.t01_2_begin",
+    "Marwood.Proofs.C01.t01_2_and",
+    "Marwood.Proofs.C01.t01_2_or_short",
+    "Marwood.Proofs.C01.t01_2_let",
+    "Marwood.Proofs.C01.t01_2_letStar",
+    "Marwood.Proofs.C01.t01_2_namedLet",
+    "Marwood.Proofs.C01.t01_2_letrec_single",
+    "Marwood.Proofs.C01.t01_2_cond_else",
+    "Marwood.Proofs.C01.t01_2_cond_body",
+    "Marwood.Proofs.C01.t01_2_case_else_arrow",
+    "Marwood.Proofs.C01.t01_2_first_half_rest",
+    "Marwood.Proofs.C01.derived_when",
+    "Marwood.Proofs.C01.derived_unless",
+    "Marwood.Proofs.C01.derived_begin",
+    "Marwood.Proofs.C01.begin_define_differs",
+    "Marwood.Proofs.C01.derived_and",
+    "Marwood.Proofs.C01.derived_or_short",
+    "Marwood.Proofs.C01.derived_or_partial",
+    "Marwood.Proofs.C01.derived_or_first_true",
+    "Marwood.Proofs.C01.or_capture_expansion_witness",
+    "Marwood.Proofs.C01.derived_let",
+    "Marwood.Proofs.C01.derived_letStar",
+    "Marwood.Proofs.C01.derived_namedLet",
+    "Marwood.Proofs.C01.derived_letrec_partial",
+    "Marwood.Proofs.C01.derived_letrec_single",
+    "Marwood.Proofs.C01.letrec_uninitialised_differs",
+    "Marwood.Proofs.C01.derived_cond_else",
+    "Marwood.Proofs.C01.derived_cond_body",
+    "Marwood.Proofs.C01.derived_cond_test_final",
+    "Marwood.Proofs.C01.cond_test_final_differs",
+    "Marwood.Proofs.C01.derived_cond_test_partial",
+    "Marwood.Proofs.C01.derived_cond_arrow_partial",
+    "Marwood.Proofs.C01.cond_capture_expansion_witness",
+    "Marwood.Proofs.C01.derived_case_else_arrow",
+    "Marwood.Proofs.C01.derived_case_else_partial",
+    "Marwood.Proofs.C01.case_capture_expansion_witness",
+    "Marwood.Proofs.C01.compile_correct_stage1_partial",
+    "Marwood.Lemmas.CompileCorrect.compileExpr_correct",
+    "Marwood.Lemmas.CompileCorrect.compileDefine_correct",
+    "Marwood.Lemmas.CompileCorrect.compileArgs_correct",
+    "Marwood.Lemmas.CompileCorrect.compileExpr_correct_atoms",
+    "Marwood.Lemmas.CompileCorrect.concrete_atomLaws",
+    "Marwood.Lemmas.CompileCorrect.demo_not_runs",
     "Marwood.Spec.Eval.Prelude.every_macro_is_readable",
     "Marwood.Spec.Eval.Prelude.when_expansion",
     "Marwood.Spec.Eval.Prelude.unless_expansion",
